@@ -85,3 +85,29 @@ func Apply(b []byte, edits []Edit) []byte {
 	}
 	return out
 }
+
+// SpecialIPv4 draws an IPv4 address from the special-purpose blocks of the IANA registry (RFC 6890): an address is an
+// address, whatever block it lies in — this host, private, shared (CGN), loopback, link-local, documentation, 6to4 relay,
+// benchmarking, multicast, reserved, limited broadcast — including the first and last address of each block and its
+// neighbours outside.
+func SpecialIPv4(t *rapid.T, label string) []byte {
+	blocks := [][2]uint32{{0x00000000, 8}, {0x0a000000, 8}, {0x64400000, 10}, {0x7f000000, 8}, {0xa9fe0000, 16}, {0xac100000, 12},
+		{0xc0000000, 24}, {0xc0000200, 24}, {0xc0586300, 24}, {0xc0a80000, 16}, {0xc6120000, 15}, {0xc6336400, 24}, {0xcb007100, 24},
+		{0xe0000000, 4}, {0xf0000000, 4}, {0xffffffff, 32}}
+	b := blocks[rapid.IntRange(0, len(blocks)-1).Draw(t, label+"_block")]
+	size := uint32(1) << (32 - b[1])
+	var a uint32
+	switch rapid.IntRange(0, 4).Draw(t, label+"_where") {
+	case 0:
+		a = b[0]
+	case 1:
+		a = b[0] + size - 1
+	case 2:
+		a = b[0] - 1
+	case 3:
+		a = b[0] + size
+	default:
+		a = b[0] + uint32(rapid.Uint32Range(0, size-1).Draw(t, label+"_in"))
+	}
+	return []byte{byte(a >> 24), byte(a >> 16), byte(a >> 8), byte(a)}
+}
